@@ -83,6 +83,16 @@ CHECKS = {
              "architectural lost-response defect is recorded as known finding F-C18-1 by its cause signature, other causes still alarm.",
         note="Trusts: SimLoop FIFO wake-up order equals anyio's; answers are only sent after the peer saw the request.",
         technique=TECH + "; per-caller outcome vs consumption-log oracle"),
+    "C20": dict(
+        level="exploration", ref="DESIGN.md section 5 C20",
+        text="Generated config files (1..4 servers, awkward args, env absent/empty/values, timeout shapes, extra keys) and the malformed "
+             "classes are fed to the three real entry points - load_config, __main__.test_server, server_manager.run_command (its anyio.run "
+             "re-hosted on a SimLoop incl. asyncio.run's shutdown, os.system stubbed) - down to the spawn seam, where a witness records argv/env "
+             "of every spawn and a fake MCP child completes the handshake (with latency, chunked answers, junk lines, one unstartable server). "
+             "Oracle: one spawn per configured name with exact argv/env, initialize then initialized seen, command function given every "
+             "connection, documented exception types from the loader, no child left running.",
+        note="Trusts: the spawn seam as witness (not a kernel exec). Nothing here depends on a schedule; the simulator gives hermetic execution and child/file faults.",
+        technique=TECH + "; witness at the spawn seam, config/child fault injection"),
 }
 
 PENDING = "check not built yet (planned, see DESIGN.md section 5)"
